@@ -1,6 +1,7 @@
 """C04 - user data rendered from content or preserved as a recoverable hex dump (E1)."""
 import itertools
 import json
+import re
 
 from mc import core, pelgen, decode, impl, imphook
 from mc.core import ChunkResult
@@ -63,6 +64,13 @@ def bounds(tier):
 
 
 def plan(tier, seed):
+    ch = _plan(tier, seed)
+    for c in ch:
+        c['tier'] = tier
+    return ch
+
+
+def _plan(tier, seed):
     ch = [{'k': 'lengths', 'kind': k} for k in ('UD', 'ED', 'DH', 'ZZ')]
     ch += [{'k': 'columns'}, {'k': 'kinds'}, {'k': 'behaviours'}, {'k': 'json'}]
     for cr in CREATORS:
@@ -71,7 +79,37 @@ def plan(tier, seed):
     for first in TEXT_SYMS:
         ch.append({'k': 'text', 'first': first, 'maxlen': n})
     ch.append({'k': 'text_long'})
+    ch += [{'k': 'builtin_bytes', 'part': i, 'parts': 8} for i in range(8)]
     return ch
+
+
+BYTE_SYMS = [0x00, 0x09, 0x0a, 0x0d, 0x1f, 0x20, 0x22, 0x2d, 0x31, 0x39, 0x5b, 0x5c, 0x5d, 0x65, 0x7b, 0x7d, 0x7e, 0x7f, 0x80,
+             0xa9, 0xc3, 0xe2, 0xef, 0xff]
+
+
+def builtin_payloads(part, parts):
+    """Arbitrary bytes offered to the built-in JSON and text formats: every single byte, every pair and (thorough: triple)
+    over BYTE_SYMS, and shaped payloads (not UTF-8, not JSON, unrepresentable numbers, deep nesting, odd white space)."""
+    out = [bytes([b]) for b in range(256)]
+    out += [bytes(t) for t in itertools.product(BYTE_SYMS, repeat=2)]
+    if TIER['t'] == 'thorough':
+        out += [bytes(t) for t in itertools.product(BYTE_SYMS, repeat=3)]
+    shaped = [b'NaN', b'Infinity', b'-Infinity', b'1e999', b'-1e999', b'[1e999]', b'{"a": NaN}', b'{"a": 1e308, "b": 9e308}',
+              b'{"a": 1E400}', b'1' * 4300, b'1' * 4301, b'[' + b'7' * 5000 + b']', b'{"n": -' + b'9' * 6000 + b'}',
+              b'\xef\xbb\xbf{"a": 1}', b'\0{"a": 1}', b'{"a": 1}\0 \0', b'{"a": 1} \0\0', b'{"a": "caf\xe9"}', b'{"a": "caf\xc3"}',
+              b'{"a": 1', b'not json', b'  not json \0\0', b'\tcore dumped at 0x1234\n\0', b'\0\0\0\0', b'\n', b' ',
+              b'    indented first line\nsecond line\n', b'\n\nthird line is the first with text\n', b'\x1funit  ',
+              b'trailing blanks   ', b'trailing newlines\n\n\n', b'a\rb\r\nc', b'tab\there', b'caf\xc3\xa9 \xe2\x82\xac', b'cut \xe2\x82',
+              b'{"a": "\\ud800"}', b'"\\ud83d\\ude00"', b'{"dup": 1, "dup": 2}', b'{"": {"": {"": []}}}',
+              b'{"Data": [1], "Error": "no"}']
+    for depth in [10, 100, 300, 500, 700] + list(range(900, 1101, 10)) + [1500, 5000, 20000]:
+        shaped.append(b'[' * depth + b']' * depth)
+        shaped.append(b'{"k":' * depth + b'1' + b'}' * depth)
+    out += [x for x in shaped if len(x) <= 65527]
+    return out[part::parts]
+
+
+TIER = {'t': 'quick'}
 
 
 def pattern(n, which):
@@ -80,15 +118,6 @@ def pattern(n, which):
     if which == 1:
         return b'\xff' * n
     return bytes((i * 13 + 7) & 0xff for i in range(n))
-
-
-def text_lines(text):
-    """Reference model of the built-in text format: lines, non-printable characters replaced by '.'."""
-    if text.endswith('\n'):
-        text = text[:-1]
-    if text == '':
-        return []
-    return [''.join(c if 0x20 <= ord(c) <= 0x7e else '.' for c in ln) for ln in text.split('\n')]
 
 
 def has_decoder(sec, creator, plugins, beh):
@@ -100,11 +129,7 @@ def has_decoder(sec, creator, plugins, beh):
     from pel.peltool.pel_values import creatorIDs
     comp, sub, ver = sec.get('comp', 0x1000), sec.get('sub', 0), sec.get('ver', 1)
     if creatorIDs.get(cr) == 'BMC' and comp == 0x2000:
-        if sub == 1:
-            return 'json'
-        if sub == 3:
-            return 'text'
-        return 'raw'
+        return 'builtin' if sub in (1, 3) else 'raw'
     if not plugins:
         return 'raw'
     if beh is not None:
@@ -158,8 +183,6 @@ def eval_case(case):
         out.append({'key': classify(case, what), 'what': '%s: %s' % (what, detail), 'case': case})
 
     if r['kind'] != 'doc':
-        if case.get('unconstrained_payload'):
-            return out
         bad('not-decoded', '%s %s %s' % (r['kind'], r.get('type'), r.get('msg')))
         return out
     doc = r['doc']
@@ -175,26 +198,17 @@ def eval_case(case):
         bad('entry', 'not an object')
         return out
     payload = pelgen.payload_of(sec)
-    if case.get('unconstrained_payload'):
-        return out       # built-in format fed bytes that are not valid UTF-8/JSON: only termination was required
     mode = has_decoder(sec, creator, plugins, beh)
     LAST['mode'] = str(mode) + ('/err' if 'Error' in ent else '')
     rest = {k: v for k, v in ent.items() if k not in ('Section Version', 'Sub-section type', 'Created by')}
-    if mode == 'json':
-        value = case['json_value']
-        if isinstance(value, dict):
-            if rest != value:
-                bad('json', 'section shows %r, payload value %r' % (rest, value))
-        elif rest != {'Data': value}:
-            bad('json', 'section shows %r, payload value %r' % (rest, value))
-    elif mode == 'text':
-        t0 = payload.decode('utf-8')
-        # NUL padding and outer whitespace may be trimmed in any order (the statement does not say)
-        forms = [t0.rstrip('\0'), t0.rstrip('\0').strip(), t0.strip().rstrip('\0'), t0.strip(' \t\n\r\0'),
-                 t0.lstrip().rstrip(' \t\n\r\0')]
-        accept = [text_lines(t) for t in forms]
-        if rest.get('Data') not in accept or set(rest) != {'Data'}:
-            bad('text', 'section shows %r, text lines %r' % (rest, accept[0]))
+    if mode == 'builtin':
+        exp = pelgen.builtin_expect(sec)
+        LAST['mode'] = 'builtin:' + exp[0] + (':shown-raw' if isinstance(rest.get('Data'), list) and rest['Data'] and
+                                              re.match(r'^[0-9A-F]{8}  ', str(rest['Data'][0])) else '')
+        if 'json_value' in case and exp[:2] != ('json', case['json_value']):
+            raise AssertionError('harness: reference model reads %r as %r, case says %r' % (payload, exp, case['json_value']))
+        for mm in pelgen.check_builtin(sec, ent, creator, {}):
+            bad(mm.split(':')[0].replace(' ', '-'), mm)
     elif mode in ('raw', 'raw+err') or (mode == 'oe500' and 'Error' in ent):
         try:
             got = rhex.read_default(ent.get('Data'))
@@ -238,6 +252,7 @@ def _sec(kind, payload, comp=0xABCD, sub=9, ver=1, **kw):
 def run_chunk(chunk):
     res = ChunkResult()
     k = chunk['k']
+    TIER['t'] = chunk.get('tier', 'quick')
     if k == 'lengths':
         for n in LENGTHS:
             if chunk['kind'] == 'ED' and n > 65523:
@@ -271,28 +286,10 @@ def run_chunk(chunk):
         cr = chunk['creator']
         for comp, sub, ver in itertools.product(COMPS, SUBS, chunk['vers']):
             for plugins in (True, False):
-                for payload in (pattern(20, 2), b'{"a": 1}\0\0\0\0'):
-                    unc = (comp == 0x2000)   # may be read as built-in JSON/text: arbitrary payload unconstrained
-                    c = {'sec': _sec('UD', payload, comp=comp, sub=sub, ver=ver), 'creator': cr, 'plugins': plugins}
-                    mode = None
-                    if unc:
-                        from pel.peltool.pel_values import creatorIDs
-                        if creatorIDs.get(cr) == 'BMC' and sub in (1, 3):
-                            if payload[0:1] != b'{':
-                                c['unconstrained_payload'] = True
-                                c['json_value'] = None
-                                if sub == 1:
-                                    continue
-                            else:
-                                c['json_value'] = {'a': 1}
-                    _do(res, c)
-                    c2 = {'sec': _sec('ED', payload, comp=comp, sub=sub, ver=ver, ed_creator=cr), 'creator': 'O',
-                          'plugins': plugins}
-                    if 'json_value' in c:
-                        c2['json_value'] = c['json_value']
-                    if c.get('unconstrained_payload'):
-                        c2['unconstrained_payload'] = True
-                    _do(res, c2)
+                for payload in (pattern(20, 2), b'{"a": 1}\0\0\0\0', b'  two\nlines \xff\n'):
+                    _do(res, {'sec': _sec('UD', payload, comp=comp, sub=sub, ver=ver), 'creator': cr, 'plugins': plugins})
+                    _do(res, {'sec': _sec('ED', payload, comp=comp, sub=sub, ver=ver, ed_creator=cr), 'creator': 'O',
+                              'plugins': plugins})
     elif k == 'json':
         for v in JSON_VALUES:
             for pad in range(4):
@@ -312,6 +309,12 @@ def run_chunk(chunk):
                 for pad in (0, 2):
                     raw = t.encode('utf-8') + b'\0' * pad
                     _do(res, {'sec': _sec('UD', raw, comp=0x2000, sub=3)}, every=199)
+    elif k == 'builtin_bytes':
+        for sub in (1, 3):
+            for raw in builtin_payloads(chunk['part'], chunk['parts']):
+                _do(res, {'sec': _sec('UD', raw, comp=0x2000, sub=sub)}, every=997)
+                if len(raw) != 2:
+                    _do(res, {'sec': _sec('ED', raw, comp=0x2000, sub=sub, ed_creator='O'), 'creator': 'H'}, every=997)
     elif k == 'text_long':
         for n in (1, 15, 16, 17, 80, 1000):
             for sep in ('\n', '\n\n', ' '):
